@@ -75,12 +75,8 @@ ASSUMPTIONS = [
     "with more than 2 x read_bufsize bytes and the end); for chunked responses the chunk parser itself pauses mid-segment, "
     "which is not an event of the model.",
     "Close-delimited responses (Connection: close / HTTP/1.0) never reach their end inside a random history (their end "
-    "is the peer's close; the model pools a connection at the end of a body); interim 1xx responses are generated only "
-    "when the implementation keeps the read timer across them (probe; open finding C18-interim-response-drops-read-timer), "
-    "and a close-delimited response is not paused while its caller is idle (open finding C18-timer-rearmed-by-connection-lost).",
-    "Open known finding C18-stale-reader-resumes-foreign-connection: reading a completely received response resumes the "
-    "connection even when it belongs to another, paused request by then; the model leaves other requests alone, random "
-    "histories stay away from that step and the corpus case is evaluated by the oracle only.",
+    "is the peer's close; the model pools a connection at the end of a body); their end is exercised by the stall sweep "
+    "and by the follow-up phase.  Interim 1xx responses are, for the model, data that does not complete the head.",
     "The await points at which cancellation is tried are the event-loop iteration boundaries of the real loop "
     "(instrumentation), not an enumeration proved complete.",
     "Model/implementation agreement is validated on the generated histories only.",
@@ -1026,28 +1022,21 @@ def gen_history(rng, nreq, limit, offset, steps, tls=False):
                     if w.wpaused.get(t):
                         opts.append(("written", t))
                     if t not in w.head_at:
-                        if INTERIM_OK[0] and w.sent.get(t, 0) == 0 and w.interims.get(t, 0) < 2 and tr.reading:
+                        if w.sent.get(t, 0) == 0 and w.interims.get(t, 0) < 2 and tr.reading:
                             opts.append(("data", t, "interim"))
                         if parts.get((t, "h"), 0) < 6:
                             opts.append(("data", t, "part"))
                         opts += [("data", t, "head")] * 2
                     else:
                         reading = w.gate[t].is_set()
-                        foreign = w.complete(t) and not tr.reading and any(
-                            t2 != t and w.tr_of.get(t2) is tr for t2 in live)
-                        # (known finding C18-stale-reader-resumes-foreign-connection: reading a completely received
-                        # response resumes the connection even when it now belongs to another, paused request; the
-                        # model does not do that, so random histories stay away from it - the corpus replays it)
-                        if not reading and not foreign:
+                        if not reading:
                             opts += [("read", t)] * 2
                         if tr.reading:
                             lim = 3 if t not in big else 6
                             pos, lay = w.sent.get(t, 0), w.layout(t)
                             if parts.get((t, "b"), 0) < lim and next_cut(pos, "part", lay) > pos:
                                 opts.append(("data", t, "part"))
-                            # (a paused close-delimited response: open finding C18-timer-rearmed-by-connection-lost)
-                            if t not in big and parts.get((t, "b"), 0) <= 3 and next_cut(pos, "big", lay) > pos \
-                                    and (reading or lay not in CLOSE_DELIMITED):
+                            if t not in big and parts.get((t, "b"), 0) <= 3 and next_cut(pos, "big", lay) > pos:
                                 opts.append(("data", t, "big"))
                             if lay in CLOSE_DELIMITED:
                                 pass         # ends only by the peer's close: left to the stall sweep and to finish()
@@ -1203,34 +1192,13 @@ def systematic_cases():
     return out
 
 
-INTERIM_OK = [False]
-
-
-def interim_rearms():
-    """Behavioural probe: does the sock_read timer survive an interim (1xx) response?  While the open finding
-    C18-interim-response-drops-read-timer stands it does not; random histories then leave interim responses out
-    (the model keeps the timer running) and the corpus case is evaluated by the oracle only."""
-    w = World(limit=1, offset=0)
-    try:
-        for st in (["start", 0, {"total": None, "connect": None, "sock_connect": None, "sock_read": 80, "thr": 80}],
-                   ["dns"], ["conn", 0], ["adv", 3], ["data", 0, "interim"]):
-            w.apply(st)
-        return bool(w.snapshot()["timers"])
-    finally:
-        w.close()
-
-
 def suite_histories(ctx, exe):
     rng = ctx.rng
-    INTERIM_OK[0] = interim_rearms()
-    ctx.count("probe:interim_response_keeps_read_timer:" + str(INTERIM_OK[0]))
     cases = []
     for path in sorted(glob.glob(os.path.join(fw.VERIF, "corpus", "C18", "*.json"))):
         c = json.load(open(path))
         c = c.get("case", c)
         if c.get("suite", "histories") == "histories":
-            if c.get("needs") == "interim":
-                c = dict(c, oracle_only=not INTERIM_OK[0])
             cases.append(c)
     cases += lookup_gap_cases()
     cases += systematic_cases()
@@ -1810,43 +1778,4 @@ def replay(ctx, case):
     return {"violates": None, "note": "unknown suite"}
 
 
-def _sig_stale_reader(case, params):
-    """History in which a response that was completely received before its caller read it is read after its
-    connection went to another request that has been paused by a large block."""
-    h = case.get("history") or []
-    for i, st in enumerate(h):
-        if st[0] != "read":
-            continue
-        t = st[1]
-        ended = [j for j in range(i) if h[j][:3] == ["data", t, "end"]]
-        if not ended or any(h[j][:2] == ["read", t] for j in range(ended[-1])):
-            continue
-        for j in range(ended[-1], i):
-            if h[j][0] == "data" and h[j][2] == "big" and h[j][1] != t and not any(h[k][:2] == ["read", h[j][1]] for k in range(j)):
-                return True
-    return False
-
-
-def _sig_interim(case, params):
-    return any(st[0] == "data" and st[2] == "interim" for st in case.get("history") or [])
-
-
-def _sig_conn_lost_timer(case, params):
-    """A close-delimited response is paused by a large block while its caller is idle, and the request then ends."""
-    h = case.get("history") or []
-    lay = {st[1]: st[2].get("layout") for st in h if st[0] == "start"}
-    for i, st in enumerate(h):
-        if st[0] == "data" and st[2] == "big" and lay.get(st[1]) in CLOSE_DELIMITED \
-                and not any(x[:2] == ["read", st[1]] for x in h[:i]):
-            return True
-    return False
-
-
-def _sig_ws_chatty(case, params):
-    return case.get("suite") == "ws_close" and case.get("peer") == "text" and case.get("cancel_k") is None
-
-
-SIGNATURES: dict = {"ws_close_not_returned_chatty_peer": _sig_ws_chatty,
-                    "stale_reader_resumes_foreign_connection": _sig_stale_reader,
-                    "interim_response_drops_read_timer": _sig_interim,
-                    "timer_rearmed_by_connection_lost": _sig_conn_lost_timer}
+SIGNATURES: dict = {}
